@@ -15,26 +15,27 @@ import (
 // makes the client panic.
 
 type c05Scenario struct {
-	AfterReconnect  bool       `json:"after_reconnect,omitempty"` // the session under test was re-established by Resume after an earlier loss
-	DisconnectFirst bool       `json:"application_disconnects_and_the_server_sends_the_sequence_before_its_closing_tag,omitempty"`
-	GracefulEnd     bool       `json:"server_ends_the_stream_after_the_sequence,omitempty"` // </stream:stream> follows the last element at once; the server keeps reading
-	LossWhilePaused bool       `json:"connection_lost_while_answers_wait,omitempty"`        // with backpressure_window: the connection is lost while answers to <r/> still wait for their turn; the application then resumes
-	BackPressure    int        `json:"backpressure_window,omitempty"`                       // >0: both receive windows are this small and the server stops reading while it sends
-	Held            int        `json:"held_stanzas_before,omitempty"`
-	WebSocket       bool       `json:"websocket"`
-	Fragment        int        `json:"websocket_fragment_every,omitempty"` // >0: every n-th element is sent as a fragmented WebSocket message
-	Component       bool       `json:"component"`
-	Client          ClientOpts `json:"client"`
-	Server          NegScript  `json:"server"`
-	Inbound         []InEl     `json:"inbound"`
-	Cut             bool       `json:"cut"`
-	CutAt           int64      `json:"cut_at"`
-	CutKind         string     `json:"cut_kind"`
-	Seg             int        `json:"segmentation"`
-	LatencyNs       int64      `json:"latency_ns"`
-	Dawdle          int        `json:"handler_dawdle"`
-	Reply           bool       `json:"handler_sends"`
-	Chunk           int        `json:"server_write_chunk"`
+	AfterReconnect   bool       `json:"after_reconnect,omitempty"` // the session under test was re-established by Resume after an earlier loss
+	HandlerAddsRoute bool       `json:"a_handler_registers_a_route,omitempty"`
+	DisconnectFirst  bool       `json:"application_disconnects_and_the_server_sends_the_sequence_before_its_closing_tag,omitempty"`
+	GracefulEnd      bool       `json:"server_ends_the_stream_after_the_sequence,omitempty"` // </stream:stream> follows the last element at once; the server keeps reading
+	LossWhilePaused  bool       `json:"connection_lost_while_answers_wait,omitempty"`        // with backpressure_window: the connection is lost while answers to <r/> still wait for their turn; the application then resumes
+	BackPressure     int        `json:"backpressure_window,omitempty"`                       // >0: both receive windows are this small and the server stops reading while it sends
+	Held             int        `json:"held_stanzas_before,omitempty"`
+	WebSocket        bool       `json:"websocket"`
+	Fragment         int        `json:"websocket_fragment_every,omitempty"` // >0: every n-th element is sent as a fragmented WebSocket message
+	Component        bool       `json:"component"`
+	Client           ClientOpts `json:"client"`
+	Server           NegScript  `json:"server"`
+	Inbound          []InEl     `json:"inbound"`
+	Cut              bool       `json:"cut"`
+	CutAt            int64      `json:"cut_at"`
+	CutKind          string     `json:"cut_kind"`
+	Seg              int        `json:"segmentation"`
+	LatencyNs        int64      `json:"latency_ns"`
+	Dawdle           int        `json:"handler_dawdle"`
+	Reply            bool       `json:"handler_sends"`
+	Chunk            int        `json:"server_write_chunk"`
 }
 
 func init() {
@@ -137,6 +138,7 @@ func runC05(e *Engine, g G, o RunOpt) RunInfo {
 		// before is received like anything else, and its requests are answered
 		sc.GracefulEnd = true
 	}
+	sc.HandlerAddsRoute = sc.Component && g.Pct("handler-adds-route", 30)
 	if !sc.Cut && !sc.WebSocket && !sc.Component && sc.BackPressure == 0 && !sc.GracefulEnd && g.Pct("disconnect-first", 12) {
 		// The application calls Disconnect(); the server answers the closing tag with the whole sequence
 		// and only then with its own closing tag. A stream is closed when both tags are exchanged: what
@@ -236,6 +238,21 @@ func runC05(e *Engine, g G, o RunOpt) RunInfo {
 			w, _, c, ok := StartComponent(e, "s3cr3t", sc.Server, func(w *CompW, s *Server) {
 				w.Dawdle = sc.Dawdle
 				w.OnPacket = sendBack
+				if sc.HandlerAddsRoute {
+					// an application that sets a route up when it first needs it: from a handler, which on a
+					// component runs on the receive loop itself (behind the catch-all: it never matches)
+					added := false
+					w.OnPacket = func(snd xmpp.Sender, p stanza.Packet) {
+						if !added {
+							added = true
+							w.Router.NewRoute().Packet("message").StanzaType("no-such-type").HandlerFunc(func(xmpp.Sender, stanza.Packet) {})
+							e.Probe("c05.handler_registers_a_route")
+						}
+						if sendBack != nil {
+							sendBack(snd, p)
+						}
+					}
+				}
 				w.CatchAll()
 			})
 			handled = &w.Handled
